@@ -253,7 +253,7 @@ func TestC20(t *testing.T) {
 	if os.Getenv("VERIF_PROP") != "C20" {
 		t.Skip()
 	}
-	r := ev.Start("C20", "model_checking")
+	r := ev.StartPart("C20", "model_checking", os.Getenv("VERIF_PART"))
 	depth := 7
 	if r.Thorough() {
 		depth = 9
